@@ -53,14 +53,17 @@ package c08
 import (
 	"bytes"
 	"context"
+	"encoding/json"
 	"fmt"
 	"os"
 	"os/exec"
 	"path/filepath"
 	"regexp"
 	"sort"
+	"strconv"
 	"strings"
 	"sync"
+	"sync/atomic"
 	"syscall"
 	"testing"
 	"time"
@@ -125,6 +128,9 @@ func setup() {
 			if setupErr != nil {
 				return
 			}
+		}
+		if v, err := strconv.Atoi(os.Getenv("C08_LANES")); err == nil && v >= 1 && v <= 16 {
+			lanes = v
 		}
 		if v := os.Getenv("C08_RUN_LIMIT_S"); v != "" {
 			if d, err := time.ParseDuration(v + "s"); err == nil {
@@ -203,11 +209,41 @@ func runEgo(dir string, lane int, cfg RunCfg, src string, limit time.Duration) r
 	if cfg.YieldRate > 0 {
 		cmd.Env = append(cmd.Env, fmt.Sprintf("VERIF_YIELD=%d:%d", cfg.YieldSeed, cfg.YieldRate))
 	}
-	var so, se bytes.Buffer
-	cmd.Stdout, cmd.Stderr = &so, &se
-	err := cmd.Run()
+	so, se := &watchBuf{}, &watchBuf{}
+	cmd.Stdout, cmd.Stderr = so, se
+	if err := cmd.Start(); err != nil {
+		return result{err: err}
+	}
+	// A run that has printed an Ego "Error:" line is a failure whatever
+	// follows; when a goroutine died of it, main usually waits for it for
+	// ever. Give the process a grace period to end by itself, then stop it
+	// instead of waiting for the wall-clock limit.
+	stop := make(chan struct{})
+	var killedEarly atomic.Bool
+	go func() {
+		tick := time.NewTicker(2 * time.Second)
+		defer tick.Stop()
+		var seen time.Time
+		for {
+			select {
+			case <-stop:
+				return
+			case <-tick.C:
+				if seen.IsZero() && (so.sawError() || se.sawError()) {
+					seen = time.Now()
+				}
+				if !seen.IsZero() && time.Since(seen) > 20*time.Second {
+					killedEarly.Store(true)
+					_ = syscall.Kill(-cmd.Process.Pid, syscall.SIGKILL)
+					return
+				}
+			}
+		}
+	}()
+	err := cmd.Wait()
+	close(stop)
 	r := result{stdout: so.String(), stderr: se.String()}
-	if ctx.Err() == context.DeadlineExceeded {
+	if ctx.Err() == context.DeadlineExceeded || killedEarly.Load() {
 		r.timedOut = true
 		return r
 	}
@@ -219,6 +255,36 @@ func runEgo(dir string, lane int, cfg RunCfg, src string, limit time.Duration) r
 		}
 	}
 	return r
+}
+
+// watchBuf collects output and remembers whether a line starting with
+// "Error:" has been written.
+type watchBuf struct {
+	mu  sync.Mutex
+	b   bytes.Buffer
+	err bool
+}
+
+func (w *watchBuf) Write(p []byte) (int, error) {
+	w.mu.Lock()
+	defer w.mu.Unlock()
+	w.b.Write(p)
+	if !w.err && (bytes.HasPrefix(w.b.Bytes(), []byte("Error:")) || bytes.Contains(w.b.Bytes(), []byte("\nError:"))) {
+		w.err = true
+	}
+	return len(p), nil
+}
+
+func (w *watchBuf) sawError() bool {
+	w.mu.Lock()
+	defer w.mu.Unlock()
+	return w.err
+}
+
+func (w *watchBuf) String() string {
+	w.mu.Lock()
+	defer w.mu.Unlock()
+	return w.b.String()
 }
 
 // goResult is what the Go text of the program does.
@@ -280,8 +346,9 @@ func clip(s string, n int) string {
 // report is one "WARNING: DATA RACE" block: the first ego frame of each of the
 // two accesses.
 type report struct {
-	top [2]string
-	raw string
+	top     [2]string
+	culprit string // see culpritOf
+	raw     string
 }
 
 var accessRE = regexp.MustCompile(`^(Read|Write|Previous read|Previous write|Atomic read|Atomic write|Previous atomic read|Previous atomic write) at 0x[0-9a-f]+ by (main goroutine|goroutine \d+):`)
@@ -302,6 +369,7 @@ func parseReports(stderr string) []report {
 			continue
 		}
 		r := report{raw: strings.TrimSpace(block)}
+		var frames [2][]string // ego frames of the two accesses, innermost first
 		acc := -1
 		for _, line := range strings.Split(block, "\n") {
 			switch {
@@ -314,9 +382,18 @@ func parseReports(stderr string) []report {
 			case strings.HasPrefix(line, "Goroutine "):
 				acc = 99
 			case acc >= 0 && acc < 2 && strings.HasPrefix(line, "  ") && !strings.HasPrefix(line, "      "):
-				if r.top[acc] == "" && strings.HasPrefix(strings.TrimSpace(line), egoMod) {
-					r.top[acc] = shortFrame(line)
+				if strings.HasPrefix(strings.TrimSpace(line), egoMod) {
+					frames[acc] = append(frames[acc], shortFrame(line))
 				}
+			}
+		}
+		for a := 0; a < 2; a++ {
+			if len(frames[a]) == 0 {
+				continue
+			}
+			r.top[a] = frames[a][0]
+			if r.culprit == "" {
+				r.culprit = culpritOf(frames[a])
 			}
 		}
 		reps = append(reps, r)
@@ -324,7 +401,41 @@ func parseReports(stderr string) []report {
 	return reps
 }
 
+// culpritOf recognises an access that is illegitimate by itself, whatever the
+// other goroutine was doing at that moment. Such a report is named by the
+// culprit alone ("<culprit> / any"): the other side, and which helper the
+// culprit happens to be in, vary from run to run for one and the same cause,
+// and a signature per frame pair would list one defect many times.
+func culpritOf(frames []string) string {
+	has := func(i int, suffix string) bool { return i < len(frames) && strings.HasSuffix(frames[i], suffix) }
+	// An access made by the start-up (or wind-down) code of a new Ego goroutine
+	// itself: bytecode.GoRoutine and what it calls, outside the dispatch loop
+	// of the goroutine's own context.
+	for _, f := range frames {
+		if strings.HasSuffix(f, "bytecode.(*Context).RunFromAddress") || strings.HasSuffix(f, "bytecode.(*Context).Run") {
+			break
+		}
+		if strings.HasSuffix(f, "bytecode.GoRoutine") {
+			return "bytecode.GoRoutine's own start-up code (outside the new context's dispatch loop)"
+		}
+	}
+	// The type check of a declared parameter reads through a pointer argument
+	// (the program only passed the address).
+	if has(0, "bytecode.requiredTypeByteCodeImpl") && (has(1, "fetchArgValue") || has(2, "fetchArgValue")) {
+		return "the type check of a pointer argument reads the pointee (requiredTypeByteCodeImpl <- fetchArgValue)"
+	}
+	// Running a deferred call rewrites the boundary flag of the deferring
+	// function's symbol table, which goroutines started there still walk.
+	if has(0, "symbols.(*SymbolTable).Boundary") && (has(1, "invokeDeferredStatements") || has(1, "invokePanicDefers")) {
+		return "a deferred call rewrites the boundary flag of the deferring function's table (SymbolTable.Boundary <- invokeDeferredStatements)"
+	}
+	return ""
+}
+
 func (r report) sig() string {
+	if r.culprit != "" {
+		return "data race: " + r.culprit + " / any"
+	}
 	a, b := r.top[0], r.top[1]
 	if a == "" {
 		a = "<no ego frame>"
@@ -411,8 +522,7 @@ func wantText(want []Line) string {
 	return b.String()
 }
 
-func oracle(c Case) vkit.Outcome {
-	var out vkit.Outcome
+func oracle(c Case) (out vkit.Outcome) {
 	setup()
 	if setupErr != nil {
 		out.Skip = "setup: " + clip(setupErr.Error(), 200)
@@ -534,8 +644,14 @@ func oracle(c Case) vkit.Outcome {
 		rank int
 		f    *vkit.Failure
 	}
+	// One failure is reported per case: the gravest one whose signature is not
+	// already listed as a known finding (so that a pervasive known defect does
+	// not hide another failure of the same case); a known one otherwise.
 	var worst *verdict
 	consider := func(rank int, f *vkit.Failure) {
+		if knownSigs()[f.Sig] {
+			rank += 100
+		}
 		if worst == nil || rank < worst.rank {
 			worst = &verdict{rank, f}
 		}
@@ -554,9 +670,20 @@ func oracle(c Case) vkit.Outcome {
 			labels["run without injected yields"] = true
 		}
 		labels[fmt.Sprintf("run optimize=%d", cfg.Opt)] = true
+		labels[fmt.Sprintf("run types=%q", cfg.Types)] = true
 		if r.err != nil {
 			out.Inconclusive = "could not run ego-race"
 			return out
+		}
+		if msg := egoError(r); msg != "" {
+			// The program (or one of its goroutines, in which case main may
+			// wait forever and the run is killed) ended with an Ego run-time
+			// or compile error. None of the generated programs contains an
+			// error, and a class 2 program's race cannot produce one either
+			// (every value is an int).
+			consider(2, &vkit.Failure{Sig: fmt.Sprintf("ego error %q; goroutine started from a closure variable=%v optimize=%d", msg, usesVarClosure(c.Prog), cfg.Opt),
+				Observed: observed(cfg, r, fmt.Sprintf("timed out=%v; %s", r.timedOut, class)), Expected: "the program runs to its end without an error\n" + wantText(want)})
+			continue
 		}
 		if r.timedOut {
 			timeouts++
@@ -572,8 +699,7 @@ func oracle(c Case) vkit.Outcome {
 				labels["race report without any ego frame (not judged)"] = true
 				continue
 			}
-			consider(1, &vkit.Failure{Sig: rep.sig(), Observed: observed(cfg, r, fmt.Sprintf("%d race report(s); %s", len(reps), class)), Expected: "no unsynchronized access inside the interpreter (no race report)"})
-			break
+			consider(1, &vkit.Failure{Sig: rep.sig(), Observed: observed(cfg, r, fmt.Sprintf("%d race report(s); %s\n--- the report this signature is taken from ---\n%s", len(reps), class, clip(rep.raw, 5000))), Expected: "no unsynchronized access inside the interpreter (no race report)"})
 		}
 		got := outputLines(r.stdout)
 		if d := compare(got, want); d >= 0 {
@@ -601,13 +727,80 @@ func oracle(c Case) vkit.Outcome {
 		}
 	}
 	if worst != nil {
+		labels["outcome: a run failed (violation or known finding)"] = true
 		out.Fail = worst.f
 		return out
 	}
 	if timeouts > 0 {
+		labels["outcome: a run was killed at the wall-clock limit"] = true
 		out.Inconclusive = "a run exceeded the wall-clock limit"
+		return out
 	}
+	labels["outcome: all runs clean"] = true
 	return out
+}
+
+var (
+	knownOnce sync.Once
+	knownSet  = map[string]bool{}
+)
+
+// knownSigs reads the signatures recorded for C08 in the known-findings file
+// the run uses (the same file vkit reads).
+func knownSigs() map[string]bool {
+	knownOnce.Do(func() {
+		p := os.Getenv("VERIF_KNOWN")
+		if p == "" {
+			p = filepath.Join(vkit.Root(), "known_findings.json")
+		}
+		b, err := os.ReadFile(p)
+		if err != nil {
+			return
+		}
+		var kf struct {
+			Findings []struct {
+				Property string `json:"property"`
+				Sig      string `json:"sig"`
+			} `json:"findings"`
+		}
+		if json.Unmarshal(b, &kf) != nil {
+			return
+		}
+		for _, k := range kf.Findings {
+			if k.Property == "C08" {
+				knownSet[k.Sig] = true
+			}
+		}
+	})
+	return knownSet
+}
+
+var (
+	errLineRE = regexp.MustCompile(`(?m)^Error: (.*)$`)
+	errAtRE   = regexp.MustCompile(`^at .*?\(line \d+\), |^at line \d+(:\d+)?, `)
+)
+
+// egoError returns the normalised text of the first "Error:" line ego printed
+// (location and the offending name removed), or "".
+func egoError(r result) string {
+	m := errLineRE.FindStringSubmatch(r.stdout + "\n" + r.stderr)
+	if m == nil {
+		return ""
+	}
+	msg := errAtRE.ReplaceAllString(m[1], "")
+	if i := strings.Index(msg, ":"); i > 0 {
+		msg = msg[:i]
+	}
+	return clip(strings.TrimSpace(msg), 80)
+}
+
+func usesVarClosure(p Program) bool {
+	for _, s := range p.Scens {
+		if s.Launch == "varclosure" {
+			return true
+		}
+	}
+	return false
 }
 
 func optArg(c RunCfg) string {
